@@ -2,6 +2,7 @@
 pub mod verif {
     pub mod bb;
     pub mod bb_graph;
+    pub mod bb_oneshot;
     pub mod cli;
     pub mod graph;
     pub mod hooks;
